@@ -125,9 +125,11 @@ Print Assumptions C11_inbound_needs_accept.
 (* ---- the open-request ledger ----
    `ledger` runs a history and keeps, per peer, whether an open request the protocol took up is still
    owed an answer (owed_next: cleared by Opened / OpenFailure for the peer only). Outside finding
-   classes 2 and 3 (ledger_env), whoever is owed an answer has the outbound half in progress and the
+   class 3 (ledger_env: the user does not Reject the peer's inbound substream while his own open request
+   for that peer is in progress), whoever is owed an answer has the outbound half in progress and the
    environment still owes the protocol the event that will produce the answer (obligation): at
-   quiescence nothing is owed. *)
+   quiescence nothing is owed. (The former second exclusion, finding class 2, is gone: repaired in the
+   code, see C11_no_dead_substream_id and C11_open_answered_before_fix_refuted.) *)
 Theorem C11_open_answered :
   forall (c : cfg) (ops : list op) (s : st) (owed : peer -> bool),
     ledger_env c init ops = true -> ledger c init (fun _ => false) ops = Some (s, owed) ->
@@ -150,14 +152,31 @@ Theorem C11_at_most_one_answer :
 Proof. exact C11_at_most_one_answer_pf. Qed.
 Print Assumptions C11_at_most_one_answer.
 
-(* Finding class 2: after the outbound substream of an accepted inbound stream fails to open, the
-   failed id stays in pending_open; the next open request adopts it although the transport owes
-   nothing for it: the request is owed an answer that nothing will ever produce. *)
-Theorem C11_open_answered_refuted :
-  exists (c : cfg) (ops : list op) (s : st) (owed : peer -> bool),
-    ledger c init (fun _ => false) ops = Some (s, owed) /\ owed 0 = true /\ obligation s 0 = false.
-Proof. exact C11_open_answered_refuted_pf. Qed.
-Print Assumptions C11_open_answered_refuted.
+(* The former finding class 2, repaired (fix: commit). In every reachable state, whatever the user and
+   the environment did: the substream id an outbound attempt in progress waits for (OutboundInitiated,
+   Validating{outbound: OutboundInitiated}) is owed by the transport to this peer, and so is every entry
+   of pending_outbound: no open request ever waits for a substream id whose open has already failed. *)
+Theorem C11_no_dead_substream_id :
+  forall (c : cfg) (s : st), reachable c s ->
+    (forall p x, (ps s p = Some (OutInit x) \/ exists d i, ps s p = Some (Validating d (OInit x) i)) -> In (x, p) (spend s)) /\
+    (forall x q, In (x, q) (pend s) -> In (x, q) (spend s)).
+Proof. exact C11_no_dead_substream_id_pf. Qed.
+Print Assumptions C11_no_dead_substream_id.
+
+(* Before the repair (on_open_old: the arm `Closed { pending_open: Some(id) }` of on_open_substream
+   adopted the remembered id unconditionally): after the outbound substream of an accepted inbound
+   stream fails to open, the failed id 0 stays in pending_open, pending_outbound and the transport no
+   longer know it; the next open request (the handle gate is open, the history is inside ledger_env) is
+   taken up with that id: in progress, and nothing will ever produce its answer. The repaired arm asks
+   the transport for a new substream instead. *)
+Theorem C11_open_answered_before_fix_refuted :
+  exists (c : cfg) (pre : list op) (s s' : st),
+    exec c init pre = Some s /\ ledger_env c init pre = true /\ hopen s 0 = false /\
+    ps s 0 = Some (Closed (Some 0)) /\ pend_find 0 (pend s) = None /\ spend s = [] /\
+    on_open_old c s 0 = Some (s', [], []) /\ in_progress (ps s' 0) = true /\ obligation s' 0 = false /\
+    exists s2, on_open c s 0 = Some (s2, [], [COpen 0 1]) /\ obligation s2 0 = true.
+Proof. exact C11_open_answered_before_fix_refuted_pf. Qed.
+Print Assumptions C11_open_answered_before_fix_refuted.
 
 (* Finding class 3: the user's Reject of the peer's inbound substream while the user's own open
    request for that peer is in progress drops the request without an answer (pinned by the
